@@ -731,6 +731,30 @@ Definition exec_op (S : schema) (G : graph) (any_installed : bool) (max_depth fu
       end
   end.
 
+(* fragment cycles (Executable.validateFragmentCycles): some fragment reaches itself through spreads *)
+Fixpoint sel_spreads (s : sel) {struct s} : list nat :=
+  match s with
+  | SField _ _ _ _ _ sels => flat_map sel_spreads sels
+  | SInline _ _ _ sels => flat_map sel_spreads sels
+  | SFrag _ n _ => [n]
+  end.
+
+Definition frag_succ (d : doc) (n : nat) : list nat :=
+  match lookup n (d_frags d) with
+  | Some fr => flat_map sel_spreads (fr_sels fr)
+  | None => []
+  end.
+
+Fixpoint frag_reach (d : doc) (k : nat) (front : list nat) : list nat :=
+  match k with
+  | 0 => []
+  | S k' => let nx := nodup Nat.eq_dec (flat_map (frag_succ d) front) in nx ++ frag_reach d k' nx
+  end.
+
+Definition frag_cycle (d : doc) : bool :=
+  existsb (fun nf => existsb (Nat.eqb (fst nf)) (frag_reach d (length (d_frags d)) [fst nf])) (d_frags d).
+
 Definition doc_rejects (S : schema) (d : doc) : bool :=
   existsb (fun o => existsb (sel_rejects S) (op_sels o)) (d_ops d)
-  || existsb (fun nf => existsb (sel_rejects S) (fr_sels (snd nf))) (d_frags d).
+  || existsb (fun nf => existsb (sel_rejects S) (fr_sels (snd nf))) (d_frags d)
+  || frag_cycle d.
